@@ -256,7 +256,8 @@ Definition SI (x : stream) : Prop :=
   (ph x = PRead -> last_read x = Some modeServer) /\
   Forall (eq (Some modeServer)) (served x) /\
   handled x = length (served x) /\
-  (ph x = PForeign <-> kind x <> KInDHT).
+  (ph x = PForeign <-> kind x <> KInDHT) /\
+  (vis x = false -> ph x = PStart).
 
 (* a stream blocked in ReadMsg has been reset (holds of every stream of a settled client) *)
 Definition CI (x : stream) : Prop := ph x = PRead -> rst x = true.
@@ -287,30 +288,32 @@ Qed.
 Lemma phase_eqb_eq : forall a b, phase_eqb a b = true <-> a = b.
 Proof. intros [] []; simpl; split; intro H; try reflexivity; try discriminate. Qed.
 
-Lemma SI_new : forall i k, SI (new_stream i k).
+Lemma SI_new : forall i k neg, SI (new_stream i k neg).
 Proof.
-  intros i k. unfold SI, new_stream; simpl. repeat split; auto; destruct k; try discriminate; try congruence.
+  intros i k neg. unfold SI, new_stream; simpl. repeat split; auto; destruct k; try discriminate; try congruence.
 Qed.
 
 Lemma SI_read_inbound : forall x, SI x -> ph x = PRead -> kind x = KInDHT.
 Proof.
-  intros x (_ & _ & _ & D) P. destruct (kind x) eqn:K; auto; exfalso;
+  intros x (_ & _ & _ & D & _) P. destruct (kind x) eqn:K; auto; exfalso;
     (assert (F : ph x = PForeign) by (apply D; discriminate)); rewrite P in F; discriminate.
 Qed.
 
 Lemma CI_demote : forall x, SI x -> CI (demote_reset x).
 Proof.
   intros x Hx. unfold CI, demote_reset, is_open_inbound.
-  destruct (ph x) eqn:P; simpl; try (rewrite andb_false_r; simpl; rewrite P; intro; discriminate);
-    try (destruct (skind_eqb (kind x) KInDHT); simpl; rewrite P; intro; discriminate).
-  rewrite (SI_read_inbound x Hx P). simpl. reflexivity.
+  destruct (phase_eqb (ph x) PRead) eqn:P.
+  - apply phase_eqb_eq in P. rewrite (SI_read_inbound x Hx P). destruct Hx as (_ & _ & _ & _ & V).
+    destruct (vis x); [rewrite P; reflexivity|]. specialize (V eq_refl). congruence.
+  - assert (N : ph x <> PRead) by (intro C; rewrite C in P; discriminate).
+    destruct (skind_eqb (kind x) KInDHT && vis x && negb (phase_eqb (ph x) PDone)); simpl; intro; contradiction.
 Qed.
 
 Ltac si_tac :=
   match goal with
   | H : SI ?x |- SI _ =>
-      let A := fresh in let B := fresh in let C := fresh in let D := fresh in
-      destruct H as (A & B & C & D); unfold SI; simpl; repeat split;
+      let A := fresh in let B := fresh in let C := fresh in let D := fresh in let V := fresh in
+      destruct H as (A & B & C & D & V); unfold SI; simpl; repeat split;
       try (intros; discriminate); try (apply D); auto
   end.
 
@@ -320,8 +323,10 @@ Ltac upd_si :=
   intros y Hy Hs Hsy;
   match goal with F : find_stream _ _ = Some ?x |- _ =>
     assert (y = x) by (eapply find_stream_unique; eauto); subst y end;
-  destruct Hsy as (A & B & C & D); unfold SI; simpl; repeat split; auto; try (intro; discriminate);
-  try (let K := fresh "K" in intro K; apply D in K; congruence).
+  destruct Hsy as (A & B & C & D & V); unfold SI; simpl; repeat split; auto; try (intro; discriminate);
+  try (let K := fresh "K" in intro K; apply D in K; congruence);
+  try (let K := fresh "K" in intro K; apply V in K; congruence);
+  try (let K := fresh "K" in intro K; congruence).
 
 Lemma Inv_set_streams : forall s l, Inv s ->
   (cur s = modeClient -> switching s = false -> Forall CI (streams s) -> Forall CI l) ->
@@ -357,23 +362,32 @@ Proof.
     + rewrite map_map. erewrite map_ext; [exact Hnd|]. intro x. apply demote_reset_sid.
   - (* ENewStream *)
     destruct (find_stream s0 (streams s)) eqn:F; [discriminate|].
-    assert (Hnew : forall k0, Inv (set_streams s (streams s ++ [new_stream s0 k0]))).
+    assert (Hnew : forall k0, Inv (set_streams s (streams s ++ [new_stream s0 k0 neg]))).
     { intro k0. apply Inv_set_streams; auto.
       - intros _ _ Hc. apply Forall_app; split; [auto|]. constructor; [|constructor].
         apply CI_not_read. destruct k0; simpl; discriminate.
       - apply Forall_app; split; [auto|]. constructor; [apply SI_new|constructor].
       - rewrite map_app; simpl; apply NoDup_app_one; auto; apply find_stream_none; exact F. }
     destruct k; [destruct (handler s)|..]; injection H as <-; auto.
+  - (* EAnnounce *)
+    destruct (find_stream s0 (streams s)) as [x|] eqn:F; [|discriminate].
+    destruct (negb (vis x) && phase_eqb (ph x) PStart) eqn:P; [|discriminate].
+    apply andb_true_iff in P. destruct P as [Vx P]. apply phase_eqb_eq in P.
+    injection H as <-; apply Inv_set_streams; auto.
+    + intros _ _ Hc. apply Forall_upd; auto.
+    + upd_si.
+    + rewrite map_sid_upd; auto.
   - (* EModeRead *)
     destruct (switching s) eqn:W; [discriminate|].
     destruct (find_stream s0 (streams s)) as [x|] eqn:F; [|discriminate].
-    destruct (phase_eqb (ph x) PStart) eqn:P; [|discriminate]. apply phase_eqb_eq in P.
+    destruct (phase_eqb (ph x) PStart && vis x) eqn:P; [|discriminate].
+    apply andb_true_iff in P. destruct P as [P Vx]. apply phase_eqb_eq in P.
     destruct (message_rejected (cur s)) eqn:R; injection H as <-; apply Inv_set_streams; auto.
     + intros _ _ Hc. apply Forall_upd; auto. intros y _ _ _. apply CI_not_read; simpl; discriminate.
     + upd_si.
     + rewrite map_sid_upd; auto.
     + intros C _. apply message_rejected_false in R. congruence.
-    + apply message_rejected_false in R. upd_si. rewrite R; reflexivity.
+    + apply message_rejected_false in R. upd_si; try (rewrite R; reflexivity).
     + rewrite map_sid_upd; auto.
   - (* EMessage *)
     destruct (find_stream s0 (streams s)) as [x|] eqn:F; [|discriminate].
@@ -429,7 +443,7 @@ Theorem mode_read_in_client : forall s i s',
 Proof.
   intros s i s' C H. simpl in H. destruct (switching s); [discriminate|].
   destruct (find_stream i (streams s)) as [x|] eqn:F; [|discriminate].
-  destruct (phase_eqb (ph x) PStart); [|discriminate].
+  destruct (phase_eqb (ph x) PStart && vis x); [|discriminate].
   rewrite C, message_rejected_client in H. injection H as <-. exists x. simpl.
   rewrite find_upd_same by reflexivity. rewrite F. auto.
 Qed.
@@ -453,9 +467,15 @@ Proof.
     + auto.
   - destruct (find_stream s0 (streams s)) eqn:F0; [discriminate|].
     destruct k; [destruct (handler s)|..]; injection H as <-; simpl; auto; apply find_app_some; exact F.
+  - destruct (find_stream s0 (streams s)) as [y|] eqn:F0; [|discriminate].
+    destruct (negb (vis y) && phase_eqb (ph y) PStart) eqn:P0; [|discriminate].
+    apply andb_true_iff in P0. destruct P0 as [_ P0]. apply phase_eqb_eq in P0.
+    assert (s0 <> i) by (intro; subst; rewrite F in F0; injection F0 as <-; congruence).
+    injection H as <-; simpl; rewrite find_upd_other; auto.
   - destruct (switching s); [discriminate|].
     destruct (find_stream s0 (streams s)) as [y|] eqn:F0; [|discriminate].
-    destruct (phase_eqb (ph y) PStart) eqn:P0; [|discriminate]. apply phase_eqb_eq in P0.
+    destruct (phase_eqb (ph y) PStart && vis y) eqn:P0; [|discriminate].
+    apply andb_true_iff in P0. destruct P0 as [P0 _]. apply phase_eqb_eq in P0.
     assert (s0 <> i) by (intro; subst; rewrite F in F0; injection F0 as <-; congruence).
     destruct (message_rejected (cur s)); injection H as <-; simpl; rewrite find_upd_other; auto.
   - destruct (find_stream s0 (streams s)) as [y|] eqn:F0; [|discriminate].
@@ -531,6 +551,7 @@ Proof.
   - destruct (find_stream s0 (streams s)); [discriminate|].
     destruct k; [destruct (handler s)|..]; injection H as <-; simpl; auto; rewrite total_handled_app; simpl; lia.
   - step_cases H; simpl; apply total_handled_upd; reflexivity.
+  - step_cases H; simpl; apply total_handled_upd; reflexivity.
   - destruct good; [exfalso; eapply Hne; reflexivity|]. step_cases H; simpl; apply total_handled_upd; reflexivity.
   - step_cases H; simpl; apply total_handled_upd; reflexivity.
   - step_cases H; simpl; apply total_handled_upd; reflexivity.
@@ -557,23 +578,26 @@ Qed.
 
 Theorem demotion_resets_open : forall s s', step s ESetModeDone = Some s' ->
   switching s' = false /\
-  Forall (fun x => kind x = KInDHT -> ph x <> PDone -> rst x = true) (streams s').
+  Forall (fun x => kind x = KInDHT -> vis x = true -> ph x <> PDone -> rst x = true) (streams s').
 Proof.
   intros s s' H. simpl in H. destruct (switching s); [|discriminate]. injection H as <-. simpl. split; [reflexivity|].
   apply Forall_forall. intros y Hy. apply in_map_iff in Hy. destruct Hy as (x & <- & _).
   unfold demote_reset, is_open_inbound. destruct (kind x) eqn:K; simpl; try (intros; congruence).
+  destruct (vis x) eqn:V; simpl; try (rewrite V; intros; congruence).
   destruct (ph x) eqn:P; simpl; try rewrite P; intros; congruence.
 Qed.
 
 (* streams never disappear and keep their kind; a reset is never undone *)
 Lemma step_stream_persists : forall s e s' i x, step s e = Some s' -> find_stream i (streams s) = Some x ->
-  exists x', find_stream i (streams s') = Some x' /\ kind x' = kind x /\ (rst x = true -> rst x' = true).
+  exists x', find_stream i (streams s') = Some x' /\ kind x' = kind x /\ (rst x = true -> rst x' = true) /\
+             (vis x = true -> vis x' = true).
 Proof.
   intros s e s' i x H F.
   assert (Hupd : forall j f, (forall z, sid (f z) = sid z) -> (forall z, kind (f z) = kind z) ->
-            (forall z, rst z = true -> rst (f z) = true) ->
-            exists x', find_stream i (upd_stream j f (streams s)) = Some x' /\ kind x' = kind x /\ (rst x = true -> rst x' = true)).
-  { intros j f H1 H2 H3. destruct (Nat.eq_dec i j) as [<-|N].
+            (forall z, rst z = true -> rst (f z) = true) -> (forall z, vis z = true -> vis (f z) = true) ->
+            exists x', find_stream i (upd_stream j f (streams s)) = Some x' /\ kind x' = kind x /\ (rst x = true -> rst x' = true) /\
+                       (vis x = true -> vis x' = true)).
+  { intros j f H1 H2 H3 H4. destruct (Nat.eq_dec i j) as [<-|N].
     - rewrite find_upd_same, F by auto. simpl. eexists; repeat split; auto.
     - rewrite find_upd_other, F by auto. eexists; repeat split; auto. }
   destruct e; simpl in H.
@@ -591,16 +615,18 @@ Proof.
   - step_cases H; simpl; apply Hupd; auto.
   - step_cases H; simpl; apply Hupd; auto.
   - step_cases H; simpl; apply Hupd; auto.
+  - step_cases H; simpl; apply Hupd; auto.
 Qed.
 
 Lemma run_stream_persists : forall evs s s' i x, run s evs = Some s' -> find_stream i (streams s) = Some x ->
-  exists x', find_stream i (streams s') = Some x' /\ kind x' = kind x /\ (rst x = true -> rst x' = true).
+  exists x', find_stream i (streams s') = Some x' /\ kind x' = kind x /\ (rst x = true -> rst x' = true) /\
+             (vis x = true -> vis x' = true).
 Proof.
   induction evs as [|e evs IH]; simpl; intros s s' i x H F.
   - injection H as <-. eauto.
   - destruct (step s e) as [s1|] eqn:E; [|discriminate].
-    destruct (step_stream_persists _ _ _ _ _ E F) as (x1 & F1 & K1 & R1).
-    destruct (IH _ _ _ _ H F1) as (x2 & F2 & K2 & R2). exists x2. repeat split; auto; congruence.
+    destruct (step_stream_persists _ _ _ _ _ E F) as (x1 & F1 & K1 & R1 & V1).
+    destruct (IH _ _ _ _ H F1) as (x2 & F2 & K2 & R2 & V2). exists x2. repeat split; auto; congruence.
 Qed.
 
 (* every inbound DHT stream open when moveToClientMode starts is, when it
@@ -608,63 +634,64 @@ Qed.
 Theorem demotion_resets : forall s0 s1 evs s2 s3 i x,
   step s0 EProcess = Some s1 -> switching s1 = true ->
   run s1 evs = Some s2 -> step s2 ESetModeDone = Some s3 ->
-  find_stream i (streams s1) = Some x -> kind x = KInDHT ->
+  find_stream i (streams s1) = Some x -> kind x = KInDHT -> vis x = true ->
   exists x', find_stream i (streams s3) = Some x' /\ (ph x' = PDone \/ rst x' = true).
 Proof.
-  intros s0 s1 evs s2 s3 i x _ _ Hr Hd F K.
-  destruct (run_stream_persists _ _ _ _ _ Hr F) as (x2 & F2 & K2 & _).
-  destruct (step_stream_persists _ _ _ _ _ Hd F2) as (x3 & F3 & K3 & _).
+  intros s0 s1 evs s2 s3 i x _ _ Hr Hd F K V.
+  destruct (run_stream_persists _ _ _ _ _ Hr F) as (x2 & F2 & K2 & _ & V2).
+  destruct (step_stream_persists _ _ _ _ _ Hd F2) as (x3 & F3 & K3 & _ & V3).
   exists x3. split; [exact F3|].
   destruct (demotion_resets_open _ _ Hd) as [_ Hall]. rewrite Forall_forall in Hall.
   destruct (find_stream_some _ _ _ F3) as [Hin _]. specialize (Hall x3 Hin).
   destruct (phase_eqb (ph x3) PDone) eqn:P; [left; apply phase_eqb_eq; exact P|right].
-  apply Hall; [congruence|]. intro C. rewrite C in P. discriminate.
+  apply Hall; [congruence|auto|]. intro C. rewrite C in P. discriminate.
 Qed.
 
 (* while moveToClientMode runs, the mode is already client and no new inbound DHT stream is accepted *)
-Theorem switching_refuses_streams : forall a s i s',
-  reachable a s -> switching s = true -> step s (ENewStream i KInDHT) = Some s' ->
+Theorem switching_refuses_streams : forall a s i neg s',
+  reachable a s -> switching s = true -> step s (ENewStream i KInDHT neg) = Some s' ->
   cur s = modeClient /\ s' = s.
 Proof.
-  intros a s i s' R W H. destruct (reachable_inv _ _ R) as (Hh & Hsw & _). specialize (Hsw W).
+  intros a s i neg s' R W H. destruct (reachable_inv _ _ R) as (Hh & Hsw & _). specialize (Hsw W).
   split; [exact Hsw|]. simpl in H. rewrite Hh, Hsw in H. simpl in H.
   destruct (find_stream i (streams s)); [discriminate|]. injection H as <-. reflexivity.
 Qed.
 
 (* a client (settled or not) never accepts a new inbound DHT stream *)
-Theorem client_refuses_streams : forall a s i s',
-  reachable a s -> cur s = modeClient -> step s (ENewStream i KInDHT) = Some s' -> s' = s.
+Theorem client_refuses_streams : forall a s i neg s',
+  reachable a s -> cur s = modeClient -> step s (ENewStream i KInDHT neg) = Some s' -> s' = s.
 Proof.
-  intros a s i s' R C H. destruct (reachable_inv _ _ R) as (Hh & _). simpl in H. rewrite Hh, C in H. simpl in H.
+  intros a s i neg s' R C H. destruct (reachable_inv _ _ R) as (Hh & _). simpl in H. rewrite Hh, C in H. simpl in H.
   destruct (find_stream i (streams s)); [discriminate|]. injection H as <-. reflexivity.
 Qed.
 
 (* ---- 5. server mode handles ---------------------------------------------------------------------------------- *)
 
-Lemma srv_new : forall s i, handler s = true -> find_stream i (streams s) = None ->
-  step s (ENewStream i KInDHT) = Some (set_streams s (streams s ++ [new_stream i KInDHT])).
-Proof. intros s i H F. simpl. rewrite F, H. reflexivity. Qed.
+Lemma srv_new : forall s i neg, handler s = true -> find_stream i (streams s) = None ->
+  step s (ENewStream i KInDHT neg) = Some (set_streams s (streams s ++ [new_stream i KInDHT neg])).
+Proof. intros s i neg H F. simpl. rewrite F, H. reflexivity. Qed.
 
 Lemma srv_read : forall s i x, switching s = false -> cur s = modeServer ->
-  find_stream i (streams s) = Some x -> ph x = PStart ->
+  find_stream i (streams s) = Some x -> ph x = PStart -> vis x = true ->
   step s (EModeRead i) = Some (set_streams s (upd_stream i (with_read modeServer) (streams s))).
-Proof. intros s i x W C F P. simpl. rewrite W, F, P, C. reflexivity. Qed.
+Proof. intros s i x W C F P V. simpl. rewrite W, F, P, V, C. reflexivity. Qed.
 
 Lemma srv_msg : forall s i x, find_stream i (streams s) = Some x -> ph x = PRead -> rst x = false ->
   step s (EMessage i true) = Some (set_streams s (upd_stream i with_handled (streams s))).
 Proof. intros s i x F P R. simpl. rewrite F, P, R. reflexivity. Qed.
 
-Lemma find_new : forall i l k, find_stream i l = None -> find_stream i (l ++ [new_stream i k]) = Some (new_stream i k).
+Lemma find_new : forall i l k neg, find_stream i l = None ->
+  find_stream i (l ++ [new_stream i k neg]) = Some (new_stream i k neg).
 Proof.
-  intros i l k F. rewrite (find_app_none _ _ _ F). unfold find_stream. simpl. rewrite Nat.eqb_refl. reflexivity.
+  intros i l k neg F. rewrite (find_app_none _ _ _ F). unfold find_stream. simpl. rewrite Nat.eqb_refl. reflexivity.
 Qed.
 
 Theorem server_handles : forall a s, reachable a s -> cur s = modeServer ->
   switching s = false /\ handler s = true /\
   (forall i, find_stream i (streams s) = None ->
-     exists s3 x, run s [ENewStream i KInDHT; EModeRead i; EMessage i true] = Some s3 /\
+     exists s3 x, run s [ENewStream i KInDHT false; EModeRead i; EMessage i true] = Some s3 /\
        find_stream i (streams s3) = Some x /\ handled x = 1 /\ rst x = false /\ ph x = PStart /\ cur s3 = modeServer) /\
-  (forall i x, find_stream i (streams s) = Some x -> ph x = PStart ->
+  (forall i x, find_stream i (streams s) = Some x -> ph x = PStart -> vis x = true ->
      exists s', step s (EModeRead i) = Some s' /\ find_stream i (streams s') = Some (with_read modeServer x)) /\
   (forall i x, find_stream i (streams s) = Some x -> ph x = PRead -> rst x = false ->
      exists s', step s (EMessage i true) = Some s' /\ find_stream i (streams s') = Some (with_handled x)).
@@ -675,22 +702,22 @@ Proof.
   assert (HH : handler s = true) by (rewrite Hh, C; reflexivity).
   repeat split; auto.
   - intros i F.
-    pose (s1 := set_streams s (streams s ++ [new_stream i KInDHT])).
+    pose (s1 := set_streams s (streams s ++ [new_stream i KInDHT false])).
     pose (s2 := set_streams s1 (upd_stream i (with_read modeServer) (streams s1))).
     pose (s3 := set_streams s2 (upd_stream i with_handled (streams s2))).
-    assert (F1 : find_stream i (streams s1) = Some (new_stream i KInDHT)) by (apply find_new; exact F).
-    assert (F2 : find_stream i (streams s2) = Some (with_read modeServer (new_stream i KInDHT))).
+    assert (F1 : find_stream i (streams s1) = Some (new_stream i KInDHT false)) by (apply find_new; exact F).
+    assert (F2 : find_stream i (streams s2) = Some (with_read modeServer (new_stream i KInDHT false))).
     { change (streams s2) with (upd_stream i (with_read modeServer) (streams s1)).
       rewrite find_upd_same by reflexivity. rewrite F1. reflexivity. }
-    exists s3, (with_handled (with_read modeServer (new_stream i KInDHT))).
+    exists s3, (with_handled (with_read modeServer (new_stream i KInDHT false))).
     split.
-    + unfold run. rewrite (srv_new s i HH F). fold s1.
-      rewrite (srv_read s1 i _ W C F1 eq_refl). fold s2.
+    + unfold run. rewrite (srv_new s i false HH F). fold s1.
+      rewrite (srv_read s1 i _ W C F1 eq_refl eq_refl). fold s2.
       rewrite (srv_msg s2 i _ F2 eq_refl eq_refl). reflexivity.
     + split; [|repeat split; auto].
       change (streams s3) with (upd_stream i with_handled (streams s2)).
       rewrite find_upd_same by reflexivity. rewrite F2. reflexivity.
-  - intros i x F P. rewrite (srv_read s i x W C F P). eexists. split; [reflexivity|]. simpl.
+  - intros i x F P V. rewrite (srv_read s i x W C F P V). eexists. split; [reflexivity|]. simpl.
     rewrite find_upd_same by reflexivity. rewrite F. reflexivity.
   - intros i x F P Rx. rewrite (srv_msg s i x F P Rx). eexists. split; [reflexivity|]. simpl.
     rewrite find_upd_same by reflexivity. rewrite F. reflexivity.
@@ -701,7 +728,7 @@ Qed.
 (* between `dht.mode = modeClient` and the resets of moveToClientMode a stream
    whose mode read happened before the demotion still gets its request handled *)
 Definition window_history : list event :=
-  [ENewStream 1 KInDHT; EModeRead 1; EEmit ReachabilityPrivate; EProcess].
+  [ENewStream 1 KInDHT false; EModeRead 1; EEmit ReachabilityPrivate; EProcess].
 
 Theorem client_window_exists :
   exists s0 s s', init ModeAutoServer = Some s0 /\ run s0 window_history = Some s /\
